@@ -90,7 +90,7 @@ fn write_run(out: &mut dyn Write, index: u64, scenario: &Scenario, driver: &str,
 
 /// State of the preemption-bounded depth-first enumeration
 #[derive(Default)]
-struct Dfs { stack: Vec<Vec<String>>, started: bool }
+struct Dfs { stack: Vec<Vec<String>>, started: bool, free_prefix: usize }
 
 impl Dfs {
     /// Adds the unexplored alternatives of a finished run that followed `prefix` and then the no-preemption policy
@@ -102,11 +102,13 @@ impl Dfs {
             let is_preempt = i > 0 && chosen[i] != chosen[i - 1] && trace[i].enabled.iter().any(|e| e == chosen[i - 1]);
             preempt[i + 1] = preempt[i] + if is_preempt { 1 } else { 0 };
         }
+        // preemptions inside a given (free) prefix do not count against the bound
+        let free = preempt[self.free_prefix.min(chosen.len())];
         for i in (prefix_len..chosen.len()).rev() {
             for alt in trace[i].enabled.iter() {
                 if alt == chosen[i] { continue; }
                 let is_preempt = i > 0 && alt != chosen[i - 1] && trace[i].enabled.iter().any(|e| e == chosen[i - 1]);
-                if preempt[i] + if is_preempt { 1 } else { 0 } > bound { continue; }
+                if preempt[i] - free.min(preempt[i]) + if is_preempt { 1 } else { 0 } > bound { continue; }
                 let mut prefix: Vec<String> = chosen[..i].iter().map(|s| s.to_string()).collect();
                 prefix.push(alt.clone());
                 self.stack.push(prefix);
@@ -158,6 +160,7 @@ fn main() {
             let state: Value = serde_json::from_str(&text).expect("state");
             next_run = state["next_run"].as_u64().unwrap_or(0);
             dfs.started = state["dfs_started"].as_bool().unwrap_or(false);
+            dfs.free_prefix = state["dfs_free_prefix"].as_u64().unwrap_or(0) as usize;
             dfs.stack = state["dfs_stack"].as_array().map(|a| a.iter().map(|p| p.as_array().unwrap().iter().map(|s| s.as_str().unwrap().to_string()).collect()).collect()).unwrap_or_else(|| vec![]);
         }
     }
@@ -181,10 +184,10 @@ fn main() {
             "script" => Box::new(ScriptDriver { script: script.clone(), diverged: diverged.clone(), fallback: None }),
             "script-random" => Box::new(ScriptDriver { script: script.clone(), diverged: diverged.clone(), fallback: Some(Rng::new(run_seed)) }),
             "dfs"    => {
-                let prefix = if !dfs.started { dfs.started = true; vec![] } else {
+                let prefix = if !dfs.started { dfs.started = true; dfs.free_prefix = script.len(); script.clone() } else {
                     match dfs.stack.pop() { Some(prefix) => prefix, None => break }
                 };
-                prefix_len = prefix.len();
+                prefix_len = prefix.len().max(dfs.free_prefix.min(prefix.len()));
                 Box::new(ScriptDriver { script: prefix, diverged: diverged.clone(), fallback: None })
             }
             other => { eprintln!("unknown driver {}", other); std::process::exit(2); }
@@ -207,7 +210,7 @@ fn main() {
     out.flush().unwrap();
     if driver == "dfs" && dfs.stack.is_empty() && dfs.started && exit_code == 0 { writeln!(out, "{}", json!({"dfs_exhausted": true, "runs": next_run})).unwrap(); out.flush().unwrap(); }
     if let Some(state_file) = state_file.as_ref() {
-        let state = json!({"next_run": next_run, "dfs_started": dfs.started, "dfs_stack": dfs.stack});
+        let state = json!({"next_run": next_run, "dfs_started": dfs.started, "dfs_stack": dfs.stack, "dfs_free_prefix": dfs.free_prefix});
         std::fs::write(state_file, state.to_string()).expect("write state");
     }
     if exit_code == 3 && driver == "dfs" && dfs.stack.is_empty() { exit_code = 0; }
